@@ -227,7 +227,7 @@ def s1_model_check(tier, out_dir):
     res = {}
     for cfg in MC_CONFIGS[tier]:
         log("S1 TLC model checking MCBuilder_%s" % cfg)
-        r = run_tlc("MCBuilderCfg", "MCBuilder_%s.cfg" % cfg, workers=12, coverage=(cfg in ("requests_generic", "convert_quick")),
+        r = run_tlc("MCBuilderCfg", "MCBuilder_%s.cfg" % cfg, workers=12, coverage=False,
                     timeout=3000, heap="12g")
         with open(os.path.join(out_dir, "mc_%s.out" % cfg), "w") as f:
             f.write(r["out"][-200000:])
